@@ -3,6 +3,38 @@
 open C10_model
 open Conv
 
+(* round 4: strings travel %-escaped through the trace (an atom cannot hold blanks, parentheses or arbitrary bytes;
+   "%_" is the empty string).  Every case is decoded before it is judged - the ranks below are those of the real
+   bytes - and everything that is printed is escaped again. *)
+let unescape (s : string) : string =
+  if not (String.contains s '%') then s
+  else begin
+    let b = Buffer.create (String.length s) in
+    let n = String.length s in
+    let i = ref 0 in
+    while !i < n do
+      if s.[!i] <> '%' then (Buffer.add_char b s.[!i]; incr i)
+      else if !i + 1 < n && s.[!i + 1] = '_' then i := !i + 2
+      else if !i + 2 < n then (Buffer.add_char b (Char.chr (int_of_string ("0x" ^ String.sub s (!i + 1) 2))); i := !i + 3)
+      else i := n
+    done;
+    Buffer.contents b
+  end
+let escape (s : string) : string =
+  if s = "" then "%_"
+  else begin
+    let b = Buffer.create (String.length s) in
+    String.iter (fun c ->
+      let k = Char.code c in
+      if k <= 0x20 || k >= 0x7f || c = '(' || c = ')' || c = '%' then Buffer.add_string b (Printf.sprintf "%%%02X" k)
+      else Buffer.add_char b c) s;
+    Buffer.contents b
+  end
+let rec decode_sx = function A s -> A (unescape s) | L l -> L (List.map decode_sx l)
+let rec string_of_sx = function
+  | A s -> escape s
+  | L l -> "(" ^ String.concat " " (List.map string_of_sx l) ^ ")"
+
 (* ---------- strings -> integer codes ----------
    resolve uses strings through equality and Go's string order (byte-wise, = OCaml's compare on
    strings).  Every string that can become a graph node is ranked. *)
@@ -310,11 +342,11 @@ let parse_registry (c : sx) =
       | [A "real"; A n] -> find_ent n
       | [A "synth"; A n; p; r; f; _] -> entry n (strings_of_sx p) (strings_of_sx r) (strings_of_sx f)
       | _ -> failwith "deploy shape" in
-  let name_of (i : int) = Hashtbl.fold (fun s j acc -> if i = j then s else acc) codes "?" in
+  let name_of (i : int) = escape (Hashtbl.fold (fun s j acc -> if i = j then s else acc) codes "?") in
   (code, registry, root_of, name_of)
 
 let check_deploy (id : int) (kind : string) (c : sx) : spec list * sx list =
-  let (code, registry, root_of, _) = parse_registry c in
+  let (code, registry, root_of, name_of) = parse_registry c in
   let feats = List.map code (strings_of_sx (field "feats" c)) in
   let roots = List.map root_of (args (field "deploys" c)) in
   let obs = field "obs" c in
@@ -347,7 +379,8 @@ let check_deploy (id : int) (kind : string) (c : sx) : spec list * sx list =
              if in_domain then begin
                let want = List.map int_of_z (closure_names registry !p root) in
                if List.sort compare real_names <> want then
-                 propfail id (Printf.sprintf "deploy #%d: the deployed set %s is not the closure of the item under the enabled providers of its requirements" i (string_of_sx a))
+                 propfail id (Printf.sprintf "deploy #%d: the deployed set %s is not the closure of the item under the enabled providers of its requirements [%s] (features switched on by the user: %s; registry = the providers of every entity in the order of their registration, see the field reg of the case)"
+                                i (string_of_sx a) (String.concat " " (List.map name_of want)) (string_of_sx (field "feats" c)))
              end;
              p := p')
       end
@@ -361,7 +394,7 @@ let check_deploy (id : int) (kind : string) (c : sx) : spec list * sx list =
     else List.iter2 (fun e s ->
         if List.map int_of_z e.rprov <> List.map (fun x -> int_of_z (code x)) s.sprov
         || List.map int_of_z e.rreq <> List.map (fun x -> int_of_z (code x)) s.sreq then
-          mismatch id ("deploy: provides/requires of deployed item differ from the registry table: " ^ s.sname))
+          mismatch id ("deploy: provides/requires of deployed item differ from the registry table: " ^ escape s.sname))
         !p.p_items items
   end;
   (items, args (field "outs" obs))
@@ -434,7 +467,7 @@ let check_seq (id : int) (kind : string) (c : sx) : (spec list * sx list) option
           if List.map int_of_z e.rprov <> List.map (fun x -> int_of_z (code x)) sp.sprov
           || List.map int_of_z e.rreq <> List.map (fun x -> int_of_z (code x)) sp.sreq
           || int_of_z e.rname <> int_of_z (code sp.sname) then
-            mismatch id ("sequence: name/provides/requires of a pipeline item differ from its specification: " ^ sp.sname);
+            mismatch id ("sequence: name/provides/requires of a pipeline item differ from its specification: " ^ escape sp.sname);
           sp) before in
       let note = Printf.sprintf " {call #%d of the sequence: Initialize%s}" k run_note in
       check_resolve ~note id kind specs [L [A "o"; out]] false;
@@ -516,7 +549,7 @@ let check_seq (id : int) (kind : string) (c : sx) : (spec list * sx list) option
              List.iter2 (fun (_, e) s ->
                if List.map int_of_z e.rprov <> List.map (fun x -> int_of_z (code x)) s.sprov
                || List.map int_of_z e.rreq <> List.map (fun x -> int_of_z (code x)) s.sreq then
-                 mismatch id ("sequence: provides/requires of a pipeline item differ from its specification: " ^ s.sname))
+                 mismatch id ("sequence: provides/requires of a pipeline item differ from its specification: " ^ escape s.sname))
                items specs;
              Some (specs, outs)
            end)
@@ -533,6 +566,7 @@ let check_seq (id : int) (kind : string) (c : sx) : (spec list * sx list) option
 
 let () =
   iter_cases (fun id c ->
+    let c = decode_sx c in
     let kind = atom (List.hd (args (field "kind" c))) in
     count ("kind_" ^ kind);
     match field_opt "ops" c, field_opt "deploys" c with
